@@ -178,11 +178,21 @@ def run(ck):
                     ev["exc"] = "%s: %s" % (type(ex).__name__, str(ex)[:100])
                 ck.count()
                 evs.append(ev)
+    # constants beyond 32 bits: printed numerals are the constants, print-parse returns the same object
+    from harness import bigvals
+    big = bigvals.events(ck, (max(e["id"] for e in evs) + 1) if evs else 0, True)
+    evs += big
+    ck.part("huge_constants", events=len(big))
     verdicts, st = tlc.validate_events("Trace_Pure", evs, constants={"Seed": ck.seed % 1000, "Cap": 32 if quick else 100})
     ck.add_tlc(st)
     byid = {e["id"]: e for e in evs}
     for i, fails in verdicts.items():
         e = byid[i]
+        if e["kind"] == "bigarith":
+            for cl in fails:
+                if cl == "printed_numerals_are_the_constants" or e["res"] != "ok":
+                    ck.violation({"kind": "bigarith", "clause": cl, "sort": e["sort"], "op": e["op"], "exc": e["exc"].split(":")[0]}, {"event": e})
+            continue
         for cl in fails:
             ck.violation({"kind": e["kind"], "clause": cl, "dag": e["dag"], "shape": shape(e["f"]), "exc": e["exc"].split(":")[0]},
                          {"event": e})
